@@ -66,7 +66,11 @@ class landuse(PseudoNetCDFFile):
 
         self.createDimension('ROW', rows)
         self.createDimension('COL', cols)
-        first_line, =  self._rffile.read('8s')
+        try:
+            first_line, = self._rffile.read('8s')
+        except UnicodeDecodeError:
+            # old-style files start with the (binary) land-use fractions
+            first_line = ''
         if first_line == 'LUCAT11 ':
             self.createDimension('LANDUSE', 11)
             self._newstyle = True
